@@ -551,3 +551,36 @@ PROPS["C17"]["assumptions"] = ["bitmap dimensions fit i16 (documented preconditi
 
 PROPS["C01"]["explanation"] += (" mixed_roundtrip_E (DM/Props/C01.lean, DM/Lemmas/EdiGen.lean): the same for plans that end in an EDIFACT stretch (front ++ EDIFACT entries, the stretch's characters being EDIFACT characters) - the general EDIFACT"
     " encoder lemma from any position with every end-of-data form (ASCII end game, UNLATCH in the next free slot, exact fit), also behind FNC1 / Macro prefix codewords.")
+
+# ======== session 4: planner / encoder coupling (Lemmas/Couple*.lean, Props/C18Couple.lean) ========
+_COUPLE = (" Coupling (DM/Props/C18Couple.lean; DM/Lemmas/Couple, CoupleAscii, CoupleB256, CoupleX12, CoupleEdi, CoupleC40, CoupleReach, CoupleMain):"
+    " predicted_size_suffices_planOK - if the planner model returns plan and cost for (body, prefix length, list, modes) and the plan satisfies the decidable side condition planOK"
+    " (DM/Model/PlanSide.lean: no switch out of C40/Text scheduled at one of the last two positions of a message ending in two digits, except the switch to ASCII exactly in front of them),"
+    " then the encoder model run on that plan either succeeds with a symbol no larger than every symbol the predicted cost fits, or answers TooMuchOrIllegalData while the predicted cost fits no listed symbol"
+    " (or the list is empty / the message exceeds the theoretical limit: the two early exits) - for all messages, prefixes, lists, mode sets and all sort permutations;"
+    " encoder_no_panic_planOK - under the same hypotheses the encoder model reaches none of its ~25 assertion / unreachable / index / underflow sites and does not run out of fuel."
+    " Proof: a history invariant of optimize (every live plan is a chain of segments, each a fresh per-mode plan stepped k times and left at a SwitchPoint through switchCost / write_unlatch: CoupleReach.optimize_final),"
+    " one pair of lemmas per mode (a segment that ends with a planned switch is priced at exactly 12 x the codewords the mode encoder writes, and the encoder leaves in the planned mode at the planned position;"
+    " the segment that runs to the end of the data fits the symbol the final cost predicts - the raw count may exceed the cost by the trailing UNLATCH that the planner does not price, counterexamples recorded in the files),"
+    " the C40/Text two-final-digits special case as its own lemma, and the composition along the switch list incl. main-loop fuel and the no-progress counter."
+    " planOK is evaluated by the compiled driver on every plan the implementation uses (statistic S.planok in the evidence).")
+for _p in ("C18", "C11"):
+    PROPS[_p]["lean"] = list(PROPS[_p]["lean"]) + ["DM.Props.C18Couple"]
+    PROPS[_p]["explanation"] += _COUPLE
+PROPS["C18"]["level_text"] = ("Partial proof: plan shape (enabled modes only, positions non-increasing ending at 0) and planner totality for all inputs; 'the latches in the encoder's output are exactly the planned non-ASCII mode"
+    " changes, in plan order' (latch_sequence, plans within the round-trip side condition PlanOK); 'the encoder never needs a larger symbol than predicted' (predicted_size_suffices_planOK, all inputs and configurations, plans within the"
+    " decidable side condition planOK, which the sweep evaluates on every plan the implementation uses) - all theorems about the models, tied to the code by planner and encoder correspondence; outside the side conditions: oracle sweep.")
+PROPS["C18"]["unproved"] = ["predicted_size_suffices without the side condition planOK (needs an optimality argument: the optimiser never schedules a switch from C40/Text to a non-ASCII mode directly in front of two final digits when the result fits); latch_sequence for plans using EDIFACT before the final stretch or latching into a non-ASCII mode within the last four characters; 'the planning API returns a plan for every encodable input' (false in general: C10 known findings)"]
+PROPS["C11"]["level_text"] = ("Partial proof: the planner never panics and always terminates (all inputs); the encoder model reaches no panic site and does not loop on the planner's own plan (encoder_no_panic_planOK, all inputs and configurations,"
+    " plans within the decidable side condition planOK evaluated on every plan of the sweep); the error is SymbolListEmpty iff the list is empty; macro slicing never panics - theorems about the models, tied to the code by correspondence;"
+    " ECI writing, the string API glue and plans outside planOK: exploration under catch_unwind.")
+PROPS["C11"]["unproved"] = ["encoder_no_panic without the side condition planOK; write_eci / encode_str glue (covered by the catch_unwind sweep only)"]
+PROPS["C01"]["lean"] = list(PROPS["C01"]["lean"]) + ["DM.Props.C01Planner"]
+PROPS["C01"]["explanation"] += (" planned_roundtrip (DM/Props/C01Planner.lean): planner, encoder and decoder models composed - if the planner model answers with a plan inside the two decidable side conditions"
+    " (planOK of the coupling theorem, planOKEb of the round-trip theorem) and its predicted cost fits a listed symbol, then the encoder model run on that plan succeeds in a symbol no larger than predicted and the decoder model"
+    " maps the stream back to the message: success of the encoder is a conclusion, no longer a hypothesis.")
+# C10 is anchored in the planner: the known findings are instances of the pinned planner's behaviour, so the
+# planner model correspondence is part of this check too (a planner that no longer behaves like the model is
+# reported, with `no-failing-input-found` unless the oracle sweep also finds an input that now needs a larger symbol)
+PROPS["C10"]["gens"] = list(PROPS["C10"]["gens"]) + ["c18m"]
+PROPS["C10"]["explanation"] += _PLANNER_NOTE
